@@ -79,6 +79,8 @@ type ScriptCfg struct {
 	UserTok   string          `json:"userTok"` // "" | enc | signenc
 	Template  string          `json:"template"`
 	NoUser    bool            `json:"noUser"`
+	// KeyOverride replaces configured keys: paasign | sess | sessenc | userenc -> value ("-" = leave the key out)
+	KeyOverride map[string]string `json:"keyOverride,omitempty"`
 }
 
 func (c ScriptCfg) Key() string {
@@ -357,6 +359,21 @@ func (r *Runner) NewInst(cfg ScriptCfg) (*Inst, error) {
 		c.UserEncKey = KeyUserEnc
 		if cfg.UserTok == "signenc" {
 			c.UserSigningKey = KeyUserSign
+		}
+	}
+	for k, v := range cfg.KeyOverride {
+		if v == "-" {
+			v = ""
+		}
+		switch k {
+		case "paasign":
+			c.PAASigningKey = v
+		case "sess":
+			c.SessionKey = v
+		case "sessenc":
+			c.SessionEncKey = v
+		case "userenc":
+			c.UserEncKey = v
 		}
 	}
 	rd := cfg.Redir
